@@ -242,7 +242,13 @@ func (e *env) explore(space string, cfg *config) {
 				}
 				ki := w.key()
 				h := hash128(ki.text)
-				if _, known := seen[h]; !known {
+				_, known := seen[h]
+				if known && d < noDedupDepth && d < cfg.Depth {
+					// state that is invisible to the key (captured by Go closures) must not end the search at
+					// once: all histories of length <= noDedupDepth are executed whatever their keys
+					next = append(next, &node{path: path, abs: w.abstract()})
+				}
+				if !known {
 					seen[h] = struct{}{}
 					newKeys++
 					if ki.pending > 0 || constLines(ki.text) != initConst {
@@ -264,7 +270,7 @@ func (e *env) explore(space string, cfg *config) {
 		}
 		completed = d
 		frontier = next
-		if newKeys == 0 {
+		if newKeys == 0 && d >= noDedupDepth {
 			fix = true
 			break
 		}
@@ -276,6 +282,9 @@ func (e *env) explore(space string, cfg *config) {
 // 50 evaluations", on a fixed schedule that cycles through functions, arguments and consumption modes
 
 const longSteps = 50
+
+// noDedupDepth: histories up to this length are all executed, without merging states of equal key.
+const noDedupDepth = 2
 
 type keptH struct {
 	h   *handle
@@ -398,18 +407,18 @@ func (e *env) long(space string, cfg *config, variants int) {
 var allModes = []int{mFull, mFirst, mNone, mKeep}
 
 type bounds struct {
-	singleDepth, regenDepth, multiDepth, hostDepth int
-	routeEvery, regenEvery, multiEvery             int // every n-th program of the family
-	multiPending, singlePending, routePending      int
-	longVariants                                   int
-	partners                                       []int // a raw program is paired with the programs this many places further
+	singleDepth, regenDepth, multiDepth, hostDepth, productDepth int
+	routeEvery, regenEvery, multiEvery                           int // every n-th program of the family
+	multiPending, singlePending, routePending                    int
+	longVariants                                                 int
+	partners                                                     []int // a raw program is paired with the programs this many places further
 }
 
 func boundsOf(quick bool) bounds {
 	if quick {
-		return bounds{singleDepth: 10, regenDepth: 6, multiDepth: 4, hostDepth: 4, routeEvery: 1, regenEvery: 3, multiEvery: 2, multiPending: 1, singlePending: 2, routePending: 1, longVariants: 1, partners: []int{37}}
+		return bounds{singleDepth: 10, regenDepth: 6, multiDepth: 4, hostDepth: 4, productDepth: 3, routeEvery: 1, regenEvery: 3, multiEvery: 2, multiPending: 1, singlePending: 2, routePending: 1, longVariants: 1, partners: []int{37}}
 	}
-	return bounds{singleDepth: 14, regenDepth: 8, multiDepth: 7, hostDepth: 8, routeEvery: 1, regenEvery: 1, multiEvery: 1, multiPending: 2, singlePending: 3, routePending: 2, longVariants: 3, partners: []int{37, 71}}
+	return bounds{singleDepth: 14, regenDepth: 8, multiDepth: 7, hostDepth: 8, productDepth: 5, routeEvery: 1, regenEvery: 1, multiEvery: 1, multiPending: 2, singlePending: 3, routePending: 2, longVariants: 3, partners: []int{37, 71}}
 }
 
 type spaceDef struct {
@@ -511,6 +520,13 @@ func spaces(quick bool) []spaceDef {
 	}
 	out = append(out, spaceDef{name: "host-constants-and-static-functions", cfgs: host, long: b.longVariants,
 		bound: fmt.Sprintf("%d programs over two host lists registered with AddConstant (lazily produced; spare capacity) in pairs sharing the constants, and %d programs calling static functions compiled by GenerateFromString / CreateAst+GenerateFunc on a second generator (folded lazy constant, pure and impure; closure; index into a constant; let with a failing branch), and %d programs calling a host function that evaluates another generated function of the same generator with Func.Eval while the calling evaluation is running (the reference implements that function in Go); each with a later Generate, both stack disciplines, all 4 modes, depth <= %d", len(hp), len(sp), len(np), b.hostDepth)})
+	// 6. every kind of constant list x every kind of run-time consumer
+	var prod []*config
+	for _, p := range constProductPrograms() {
+		prod = append(prod, &config{Name: "product/" + p.ID, Init: []progSpec{p}, Route: rGenerate, Stack: sFresh, Modes: allModes, MaxPending: 1, Depth: b.productDepth})
+	}
+	out = append(out, spaceDef{name: "constant-stage-x-consumer", cfgs: prod, long: 1,
+		bound: fmt.Sprintf("%d kinds of constant list (literal, every lazy stage of the library, append/concat/eval results, nested in a map/list) x %d run-time consumers (readers, lazy results returned to the host, appends, comparisons and membership with the constant on either side, self-combinations, failing and half-consumed iterations, closures, multiUse): %d programs, each alone on its generator; every history over Eval(f, 5 arguments) x 4 consumption modes, one pending handle, depth <= %d, plus one long plain history of %d evaluations", len(constStages), len(constConsumers), len(prod), b.productDepth, longSteps)})
 	return out
 }
 
@@ -604,7 +620,7 @@ func extra(merged *bex.Result, cov map[string]any) {
 		fp += fmt.Sprintf("; %d configurations were interrupted by the time budget", n)
 	}
 	cov["fixpoint"] = fp
-	cov["programs"] = int64(len(programs()) + len(hostConstPrograms()) + len(staticPrograms()) + len(nestedPrograms()))
+	cov["programs"] = int64(len(programs()) + len(hostConstPrograms()) + len(staticPrograms()) + len(nestedPrograms()) + len(constProductPrograms()))
 	cov["argument_pool"] = argNames
 }
 
